@@ -149,6 +149,25 @@ def run_shard(spec, rec):
         res["Quantity.is_compatible_with(Quantity)"] = outcome(
             lambda: qa.is_compatible_with(Q(one, ubu)), pint)[1]
         res["ureg.is_compatible_with"] = outcome(lambda: ureg.is_compatible_with(qa, ubu), pint)[1]
+        if nit is float and rng.random() < 0.3:
+            # the predicates must follow the object's CURRENT units: in-place arithmetic on an array
+            # quantity replaces the units after its dimensionality has been read once
+            import numpy as np
+            try:
+                qi = Q(np.array([1.0, 2.0]), ureg.Unit(ua_(a)))
+                qi.dimensionality
+                qi *= Q(2.0, ubu)
+                want_same = not m.dimvec(b if isinstance(b, dict) else R.evaluate(b)[1])
+                got_c = qi.is_compatible_with(ureg.Unit(ua_(a)))
+                rec.count("predicate_evals")
+                rec.count("inplace_predicate_checks")
+                if got_c is not want_same:
+                    rec.violation("predicate-stale-after-inplace-operation",
+                                  {"a": sa, "times": sb, "is_compatible_with_original": got_c, "model": want_same,
+                                   "dimensionality_reported": repr(dict(qi.dimensionality))}, predicate="is_compatible_with",
+                                  workload=tag)
+            except Exception as e:  # noqa: BLE001
+                rec.count("inplace_predicate_skipped")
         for k, v in res.items():
             rec.count("predicate_evals")
             if v is not same:
